@@ -75,6 +75,8 @@ AtPointN(s, p) ==
       [] p = "server.beforeFastInvoke" -> Cardinality({k \in DOMAIN s.iv : s.iv[k].f = "fast"})
       [] p = "server.resetBeforeRelease" -> IF s.rdone > 0 THEN 1 ELSE 0
       [] p = "invoke.beforeSetRenderer" -> IF s.pcV.pc = "v1" THEN 1 ELSE 0
+      [] p = "core.newInternalAgent"   -> Cardinality({c \in DOMAIN s.calls : s.calls[c].api = "register" /\ s.calls[c].st = "issued"
+                                                          /\ ~(s.calls[c].name \in Agents(s) /\ s.ag[s.calls[c].name].kind = "ext")})
       [] p = "watch.flowsCanceled"     -> IF s.pcW.pc = "w3" THEN 1 ELSE 0
       [] p = "server.sendResponse"      -> Cardinality({c \in DOMAIN s.calls : s.calls[c].api = "response" /\ s.calls[c].st = "issued"})
       [] p = "server.sendErrorResponse" -> Cardinality({c \in DOMAIN s.calls : s.calls[c].api = "error" /\ s.calls[c].st = "issued"})
@@ -865,6 +867,8 @@ EffectEn(s, c) ==
     /\ c \in DOMAIN s.calls /\ s.calls[c].st = "issued"
     /\ (s.calls[c].api = "response" => Free(s, "server.sendResponse"))
     /\ (s.calls[c].api = "error" => Free(s, "server.sendErrorResponse"))
+    /\ ((s.calls[c].api = "register" /\ ~(s.calls[c].name \in Agents(s) /\ s.ag[s.calls[c].name].kind = "ext"))
+            => Free(s, "core.newInternalAgent"))
 EffectDo(s, c) ==
     LET call == s.calls[c] IN
     CASE call.api = "next" /\ call.who = "rt" -> RtNextEffect(s, c)
